@@ -82,7 +82,7 @@ func (g *tkGen) addr() net.Addr {
 }
 
 func tkSameAddr(a, b net.Addr) bool {
-	return bytes.Equal(handshake.VerifEncodeRemoteAddr(a), handshake.VerifEncodeRemoteAddr(b))
+	return bytes.Equal(handshake.VerifTksEncodeRemoteAddr(a), handshake.VerifTksEncodeRemoteAddr(b))
 }
 
 func (g *tkGen) decode(tg *handshake.TokenGenerator, tok []byte, what string) (t *handshake.Token, err error, ok bool) {
